@@ -12,3 +12,6 @@ echo "== tests with change:"; PYTHONPATH=$WT /venv/bin/python -m pytest -q -p no
 echo "== demo with change:"; PYTHONPATH=$WT /venv/bin/python $D 2>&1 | tail -2; echo "exit $?"
 echo "== our check:"; cd /verif; AMOCO_REPO=$WT ./check $ID --tier $TIER 2>&1 | grep -E "VIOLATION|quick:|thorough:|^   " | cut -c1-260 | head -12
 git -C /repo worktree remove --force $WT
+# the translator-based checks regenerate lean/Generated from the tree they ran against: put the committed
+# (unchanged /repo) version back
+git -C /verif checkout -- lean/Generated 2>/dev/null
